@@ -82,6 +82,19 @@ def run_property(P, tier, seed, replay=None):
             "gcc build of the C extension from the working tree; CPython 3.12 semantics",
         ]
 
+        # thorough tier: independent re-check of the compiled property module and everything it
+        # depends on with coqchk, recording the axioms it reports
+        if tier == "thorough" and not proof_errors:
+            import subprocess
+            mod = "ZI." + P.PROPERTY_FILE[:-2].replace("/", ".")
+            pr = subprocess.run(["timeout", "3000", "coqchk", "-silent", "-o", "-Q", C.COQ, "ZI", mod],
+                                capture_output=True, text=True, cwd=C.COQ)
+            txt = pr.stdout + pr.stderr
+            ax = txt.split("* Axioms:")[1].split("* Constants")[0].strip() if "* Axioms:" in txt else "coqchk output not understood"
+            cov["coqchk"] = {"module": mod, "exit": pr.returncode, "axioms": ax}
+            if pr.returncode != 0 or (ax != "<none>" and not all(a.strip() in getattr(P, "ALLOWED_AXIOMS", ()) for a in ax.split("\n") if a.strip())):
+                proof_errors.append("coqchk rejects %s or reports axioms: %s" % (mod, txt[-1500:]))
+
         # ---- 2. cases
         if replay:
             with open(replay) as fh:
